@@ -2,7 +2,7 @@
 # usage: regress_seeded.sh [tier] [ids...]  -- runs every seeded change (or the named ones) against the check of its property
 # (scratch worktree, never /repo) and prints one line per change: CAUGHT / MISSED
 TIER="${1:-quick}"; shift
-IDS="$@"; if [ -z "$IDS" ]; then IDS=$(ls /verif/seeded); fi
+IDS="$@"; if [ -z "$IDS" ]; then IDS=$(cd /verif/seeded && ls -d */ | tr -d /); fi
 for SID in $IDS; do
   P=$(python3 -c "import json;print(json.load(open('/verif/seeded/$SID/meta.json'))['property'])")
   OUT=$(/verif/tools/try_mutant.sh /verif/seeded/$SID $TIER $P 2>&1)
